@@ -32,7 +32,7 @@ EXPLANATION = (
 ASSUMPTIONS = [
     "networkx condensation / topological_sort outputs are taken from the implementation's objects and validated per instance by the verified checkers cond_ok / dag_topo_ok / peel_inputs_ok (a failing checker is reported)",
     "network_simplex is external: compute_max_edge_antichain is certified per sampled instance (antichain_ok + cover of equal size), not proved for all inputs",
-    "edge weights are integers (incl. 0 and 2^40): Python's float()/int arithmetic is exact on them",
+    "edge weights are integers (incl. 0 and 2^40) or dyadic (k/8, compared with the model after scaling): Python's arithmetic is exact on them; inexact float flows (0.1, 0.2 + 0.1, ...) are only evaluated directly (tolerance 1e-9 * max flow), never compared with the integer model",
     "node names are interned to integers by position in list(G.nodes())",
 ]
 TRUSTED = ["models: coq/theories/Reach.v, Peel.v, Cover.v; proofs ReachProofs1-4.v, PeelProofs1-3.v, CoverProofs.v",
@@ -550,6 +550,36 @@ class _TooManyRounds(Exception):
     pass
 
 
+def peeling_clause(G, before, got, conserving, exact):
+    """C17's peeling clause evaluated DIRECTLY on the implementation's output, against the ORIGINAL graph G:
+    every path runs along edges of G from a node without in-edges to a node without out-edges, one positive weight per
+    path, at most #positive-edges paths, no edge explained beyond its flow and - for a conserving flow - every edge's
+    flow equals the summed weights (exactly for ints / dyadic values, within 1e-9 * scale for general floats).
+    Returns None or a description of the failure."""
+    if isinstance(got, str):
+        return "raised " + got
+    paths, ws = got
+    if len(paths) != len(ws):
+        return f"{len(paths)} paths but {len(ws)} weights"
+    npos = sum(1 for x in before.values() if x > 0)
+    scale = max([1e-300] + [abs(x) for x in before.values()])
+    tol = 0 if exact else 1e-9 * scale
+    expl = collections.Counter()
+    for p, w in zip(paths, ws):
+        if len(p) < 2: return f"path {p} has no edge"
+        for e in gen.pairs(p):
+            if not G.has_edge(*e): return f"{e} in path {p} is not an edge of the graph"
+            expl[e] += w
+        if G.in_degree(p[0]) != 0: return f"path {p} starts at {p[0]}, which has incoming edges in the graph"
+        if G.out_degree(p[-1]) != 0: return f"path {p} ends at {p[-1]}, which has outgoing edges in the graph"
+        if not w > 0: return f"path {p} has weight {w}"
+    if len(paths) > npos: return f"{len(paths)} paths for {npos} edges with positive flow"
+    for e, x in before.items():
+        if expl[e] > x + tol: return f"edge {e} with flow {x} is explained {expl[e]} times"
+        if conserving and abs(expl[e] - x) > tol: return f"edge {e}: flow {x}, summed path weights {expl[e]}"
+    return None
+
+
 def run_peeling(ctx, n):
     import flowpaths as fp
     from flowpaths.utils import graphutils
@@ -557,18 +587,26 @@ def run_peeling(ctx, n):
     orig = graphutils.max_bottleneck_path
     for i in range(n):
         rng = ctx.rng("peel", i)
-        conserving = rng.random() < 0.75
-        G = flow_graph(rng, conserving)
+        r = rng.random()
+        scale = 1                                       # model sees flow * scale (integers)
+        if r < 0.22:
+            kind = "float"; G, _ = gen.float_conserving_dag(rng); conserving = True; scale = None
+        elif r < 0.34:
+            kind = "dyadic"; conserving = rng.random() < 0.8; G = flow_graph(rng, conserving); scale = 8
+            for e in G.edges(): G.edges[e]["flow"] = G.edges[e]["flow"] / 8
+        else:
+            conserving = rng.random() < 0.72
+            kind = "int" if conserving else "int-nonconserving"
+            G = flow_graph(rng, conserving)
         if rng.random() < 0.04:
-            G = nx.DiGraph(); G.add_nodes_from(["a", "b"][:rng.choice([1, 2])]); conserving = True
+            G = nx.DiGraph(); G.add_nodes_from(["a", "b"][:rng.choice([1, 2])]); conserving = True; kind = "noedges"; scale = 1
         before = {(u, v): d["flow"] for u, v, d in G.edges(data=True)}
         st = fp.stDAG(G)
         calls = []; rounds = [0]
         limit = sum(1 for x in before.values() if x > 0) + 3          # theorem: at most #positive edges rounds
         def spy(H, attr, calls=calls, rounds=rounds, limit=limit):
-            names = list(H.nodes()); ids = {v: j for j, v in enumerate(names)}
             if not calls:
-                calls.append((names, structure(H, ids, attr)))
+                calls.append((list(H.nodes()), H.copy()))
             rounds[0] += 1
             if rounds[0] > limit:
                 raise _TooManyRounds(f"more than {limit} rounds")
@@ -583,47 +621,44 @@ def run_peeling(ctx, n):
         if not calls:
             ctx.report("decompose_using_max_bottleneck did not call graphutils.max_bottleneck_path (harness cannot observe the structure)",
                        {"kind": "peel"}, concrete=False); continue
-        names, struct = calls[0]
-        reqs.append("peel " + common.toks(struct))
+        names, H0 = calls[0]
         ids = {v: j for j, v in enumerate(names)}
-        if not isinstance(got, str):
-            D = [[w, len(p), [ids[x] for x in p]] for p, w in zip(*got)]
-            W = [[ids[u], ids[v], x] for (u, v), x in before.items()]
-            reqs.append("explains " + common.toks(len(W), W, len(D), D))
+        if scale is None:
+            reqs.append("explains 0 0"); reqs.append("explains 0 0")          # inexact floats: no model
         else:
-            reqs.append("explains 0 0")
-        meta.append((i, G, names, got, conserving, before))
+            for e in H0.edges(): H0.edges[e]["flow"] = int(H0.edges[e]["flow"] * scale)
+            reqs.append("peel " + common.toks(structure(H0, ids, "flow")))
+            if not isinstance(got, str) and all((w * scale) == int(w * scale) for w in got[1]):
+                D = [[int(w * scale), len(p), [ids.get(x, 0) for x in p]] for p, w in zip(*got)]
+                W = [[ids[u], ids[v], int(x * scale)] for (u, v), x in before.items()]
+                reqs.append("explains " + common.toks(len(W), W, len(D), D))
+            else:
+                reqs.append("explains 0 0")
+        meta.append((i, G, names, got, conserving, before, kind, scale))
     outs = ctx.model.run(reqs)
-    for j, (i, G, names, got, conserving, before) in enumerate(meta):
+    for j, (i, G, names, got, conserving, before, kind, scale) in enumerate(meta):
         out = outs[2 * j]; chk = outs[2 * j + 1]
-        replay = {"kind": "peel", "nodes": list(G.nodes()), "edges": [[u, v, x] for (u, v), x in before.items()], "impl": str(got), "model": out}
+        replay = {"kind": "peel", "nodes": list(G.nodes()), "edges": [[u, v, x] for (u, v), x in before.items()], "impl": str(got), "model": out,
+                  "flow_kind": kind, "conserving": conserving}
         npos = sum(1 for x in before.values() if x > 0)
-        ctx.case(["peel", sorted([u, v, x] for (u, v), x in before.items())], nontrivial=npos >= 3,
-                 sample={"kind": "decompose_using_max_bottleneck", "edges": replay["edges"], "impl": str(got)[:200]})
-        ctx.dist("peel:" + ("noedges" if not before else ("conserving" if conserving else "non-conserving")))
+        ctx.case(["peel", sorted([u, v, repr(x)] for (u, v), x in before.items())], nontrivial=npos >= 3,
+                 sample={"kind": "decompose_using_max_bottleneck/" + kind, "edges": replay["edges"], "impl": str(got)[:200]})
+        ctx.dist("peel:" + kind)
         ctx.count("E3_peeling", "cases")
         after = {(u, v): d["flow"] for u, v, d in G.edges(data=True)}
         if after != before:
             ctx.report("decompose_using_max_bottleneck changed the caller's graph", replay, concrete=True); continue
         if got == "_TooManyRounds":
             ctx.report(f"greedy peeling does not terminate within #positive edges ({npos}) + 1 rounds on a non-negative flow", replay, concrete=True); continue
-        if not before:
-            if got != ([], []):
-                ctx.report(f"decompose_using_max_bottleneck on a DAG without edges: {got} instead of ([], [])", replay, concrete=True); continue
-            ctx.count("E2_property_on_impl_output", "peeling")
-        elif conserving:
-            ok = not isinstance(got, str)
-            if ok:
-                paths, ws = got
-                expl = collections.Counter()
-                for p, w in zip(paths, ws):
-                    ok &= len(p) >= 2 and all(G.has_edge(*e) for e in gen.pairs(p)) and G.in_degree(p[0]) == 0 and G.out_degree(p[-1]) == 0 and w > 0
-                    for e in gen.pairs(p): expl[e] += w
-                ok &= all(expl[e] == x for e, x in before.items()) and len(paths) <= npos and len(paths) == len(ws)
-                ok &= chk == "OK 1"                       # the verified checker explains_ok on the same output
-            if not ok:
-                ctx.report(f"greedy peeling does not explain the conserving flow: returned {got}", replay, concrete=True); continue
-            ctx.count("E2_property_on_impl_output", "peeling")
+        # ---- the property, directly on the implementation's output and the ORIGINAL graph (every case, every flow kind)
+        bad = peeling_clause(G, before, got, conserving, exact=scale is not None)
+        if bad is None and conserving and scale is not None and chk != "OK 1":
+            bad = "the verified checker explains_ok rejects the returned decomposition"
+        if bad:
+            ctx.report(f"greedy peeling ({kind} flow{'' if conserving else ', not conserving'}): {bad}; returned {str(got)[:300]}", replay, concrete=True); continue
+        ctx.count("E2_property_on_impl_output", "peeling" if scale is not None else "peeling_float")
+        if scale is None:
+            ctx.count("E3_peeling", "inexact_float_no_model"); continue
         head, _, body = out.partition("|")
         if out.startswith("KEYERROR"): mod = "KeyError"
         elif out.startswith("OUTOFFUEL"): mod = "OutOfFuel"
@@ -634,12 +669,14 @@ def run_peeling(ctx, n):
                 t = part.split(); mod[1].append(int(t[0])); mod[0].append([names[int(x)] for x in t[1:]])
         if before and not head.strip().endswith("1") and not out.startswith("KEYERROR"):
             ctx.report("peel_inputs_ok rejects the structure of temp_G read off networkx", replay, concrete=False); continue
-        norm = lambda r: r if isinstance(r, str) else (list(map(list, r[0])), list(r[1]))
-        if norm(mod) == norm(got):
+        norm = lambda r: r if isinstance(r, str) else (list(map(list, r[0])), [w * scale for w in r[1]])
+        normm = lambda r: r if isinstance(r, str) else (list(map(list, r[0])), list(r[1]))
+        if normm(mod) == norm(got):
             ctx.count("E3_peeling", "agreements")
         else:
             ctx.count("E3_peeling", "disagreements")
-            ctx.report(f"E3 correspondence broken: decompose_using_max_bottleneck returned {got}, model {mod} (case {i})", replay, concrete=False)
+            ctx.report(f"E3 correspondence broken (the property holds on this output): decompose_using_max_bottleneck returned {got}, model {mod} "
+                       f"(weights x{scale}; case {i})", replay, concrete=False)
 
 
 # ----------------------------------------------------------------------------- E2 antichains and width
@@ -850,7 +887,7 @@ def run_cyclic_width(ctx, n):
 def run(ctx):
     ctx.rule = ("cases: random DAGs (gen.rand_dag, <= 7 nodes) and cyclic digraphs (gen.rand_cyclic, <= 9 nodes incl. source/sink) with integer "
                 "weights from {0, 1..9, 2^40 +- k}, some edges without the attribute, optional additional starts/ends; histories of 4-14 operations "
-                "over 1-3 graph objects; flows = superpositions of 0-4 source-to-sink paths (conserving) or arbitrary non-negative weights; antichain "
+                "over 1-3 graph objects; flows = superpositions of 0-4 source-to-sink paths (conserving; integer, dyadic k/8, or inexact floats that conserve exactly in float arithmetic: fan-out / fan-in trees with trunk = float sum of the branches, filtered superpositions) or arbitrary non-negative weights; antichain "
                 "weight functions incl. all-zero, empty dict, 2^20 and 2^40. Non-trivial: >= 4 edges and a non-trivial SCC (cyclic) / >= 3 positive "
                 "edges (peeling) / optimum >= 2 (antichain); distinct by canonical edge+weight lists")
     run_sdg(ctx, ctx.budget(500, 8000))
@@ -894,14 +931,14 @@ def replay(ctx, body):
         best = best_bottleneck(G)
         return (got == (None, None)) != (best == 0) if not isinstance(got, str) and got[0] is None else (isinstance(got, str) or got[0] != best)
     if kind == "peel":
+        before = {(u, v): d["flow"] for u, v, d in G.edges(data=True)}
         try: got = fp.stDAG(G).decompose_using_max_bottleneck("flow")
         except Exception as e: got = exc_kind(e)
         print("impl now:", got)
-        if isinstance(got, str): return True
-        expl = collections.Counter()
-        for p, w in zip(*got):
-            for e in gen.pairs(p): expl[e] += w
-        return any(expl[(u, v)] != d["flow"] for u, v, d in G.edges(data=True))
+        exact = body.get("flow_kind") != "float"
+        bad = peeling_clause(G, before, got, body.get("conserving", True), exact)
+        print("clause:", bad or "holds")
+        return bad is not None
     if kind in ("hist", "hist_mut"):
         st = fp.stDiGraph(G); names = list(st.nodes()); held = {}; bad = False
         for q, cold in zip(body["ops"], body["cold"]):
